@@ -178,7 +178,10 @@ class World:
             f.phase = 'in'
         self.callout('C1')
         try:
-            return sup(*args)
+            r = sup(*args)
+            # the answer is computed, nothing is stored yet
+            self.callout('C3')
+            return r
         finally:
             if f is not None:
                 f.phase = 'post'
@@ -194,7 +197,7 @@ class World:
         if act == 'none':
             return
         inner = None
-        if f.top and point in ('B', 'C1', 'D', 'E') and 'mutate' in act:
+        if f.top and point in ('B', 'C1', 'C3', 'D', 'E') and 'mutate' in act:
             inner = self.find_container(point)
         if act == 'raise':
             raise ForeignError(point)
@@ -280,11 +283,20 @@ class World:
             self.frames.pop()
 
     def fresh_answer(self):
-        if self.entry == 'subs':
-            r = self.reg.subscriptions([self.IR], self.IP)
-            return r[-1].v if r else None
-        r = self.reg.lookup([self.IR], self.IP, '')
-        return r.v if isinstance(r, Val) else repr(r)
+        """the next lookup of the SAME key through the same cache (no frame
+        is active: the call-outs are inert), and of another key"""
+        out = []
+        for key in (self.key, self.IR):
+            if self.entry == 'subs':
+                r = self.reg.subscriptions([key], self.IP)
+                out.append(r[-1].v if r else None)
+            elif self.entry == 'all':
+                r = dict(self.reg.lookupAll([key], self.IP)).get('')
+                out.append(r.v if isinstance(r, Val) else repr(r))
+            else:
+                r = self.reg.lookup([key], self.IP, '')
+                out.append(r.v if isinstance(r, Val) else repr(r))
+        return out[0] if out[0] == out[1] else out
 
 
 SPEC_ENTRY = {'subs': 'all'}
@@ -327,7 +339,7 @@ def run_schedule(case):
                  'object released it' % (point, act),
                  '>= 3 (ours, getrefcount argument, the frame)', rc)
     if any(('mutate' in v) for k, v in case['plan'].items()
-           if k in ('B', 'C1', 'D', 'E')) and not w.audits \
+           if k in ('B', 'C1', 'C3', 'D', 'E')) and not w.audits \
             and kind != 'exc':
         unaudited += 1
     return w
